@@ -189,6 +189,7 @@ func (vlog *valueLog) rewrite(f *logFile) error {
 	vlog.db.gcDiscardTs.Store(vlog.db.MaxVersion())
 	vlog.db.gcActive.Store(true)
 	defer vlog.db.gcActive.Store(false)
+	verifPoint("vlog.rewrite.started", uint64(f.fid), vlog.db.gcDiscardTs.Load())
 
 	wb := make([]*Entry, 0, 1000)
 	var size int64
@@ -323,6 +324,7 @@ func (vlog *valueLog) rewrite(f *logFile) error {
 		return err
 	}
 
+	verifPoint("vlog.rewrite.scanned", uint64(f.fid), uint64(len(wb)))
 	// vlogGCPauseHook fires here in tests to inject a delete + compaction
 	// into the race window between Phase 1 (scan) and Phase 2 (write-back).
 	if vlog.db.vlogGCPauseHook != nil {
@@ -351,6 +353,7 @@ func (vlog *valueLog) rewrite(f *logFile) error {
 		}
 		i += batchSize
 	}
+	verifPoint("vlog.rewrite.written", uint64(f.fid), uint64(len(wb)))
 	vlog.opt.Infof("Processed %d entries in %d loops", len(wb), loops)
 	vlog.opt.Infof("Total entries: %d. Moved: %d", count, moved)
 	vlog.opt.Infof("Removing fid: %d", f.fid)
